@@ -1402,6 +1402,15 @@ fn rmw_general_body(idx: usize) {
     st.cnt = 4;
     kani::assume(!st.is_mutating && vv_le(&st.unsync_mut_at, &th.causality) && vv_le(&st.unsync_loaded_at, &th.causality));
     let old = atomic_view(&st);
+    // validity: a thread's own first-seen stamps lie in its own past
+    {
+        let mut i = 0;
+        while i < H {
+            let own = if a == 0 { old.stores[i].first_seen[0] } else { old.stores[i].first_seen[1] };
+            kani::assume(own == u16::MAX || own <= vv_get(&th.causality, a));
+            i += 1;
+        }
+    }
     let (so, fo) = (any_order(), any_order());
     let next: u64 = kani::any();
     let fail: bool = kani::any();
